@@ -44,6 +44,42 @@ CFG = {
         "Swat4.C13.C13_retry_after_concurrent_commit",
         "Swat4.C13.C13_failure_after_concurrent_commit",
         "Swat4.C13.C13_success_after_concurrent_commit",
+        # hmono discharged (reviewer W1): versions only grow under every repository call / use case / USys run
+        "Swat4.C13.exec_version_mono",
+        "Swat4.C13.exec_keeps_row",
+        "Swat4.C13.usecases_callbacks_stable",
+        "Swat4.C13.prog_version_mono",
+        "Swat4.VerMono.exec_rowLe",
+        "Swat4.VerMono.run_mono",
+        "Swat4.VerMono.usys_run_mono",
+        "Swat4.C13.probe_retry_race_any",
+        "Swat4.C13.probe_failure_race_any",
+        "Swat4.C13.probe_success_race_any",
+        # every placement of the concurrent activity, any activity of the others
+        "Swat4.C13Run.probe_retry_slots",
+        "Swat4.C13Run.probe_failure_slots",
+        "Swat4.C13Run.probe_success_slots",
+        "Swat4.C13.probe_retry_race_at",
+        "Swat4.C13.probe_failure_race_others",
+        "Swat4.C13.probe_success_race_at",
+        "Swat4.C13.raceRun_at_call",
+        "Swat4.C13.others_usecase",
+        "Swat4.C13Run.others_usys",
+        # bridge to the system model the driver replays
+        "Swat4.C13Run.usys_retry_bridge",
+        "Swat4.C13Run.usys_probe_retry_any",
+        "Swat4.C13Run.usys_two_clients_retry",
+        "Swat4.C13Run.usys_two_clients_retry_iff",
+        "Swat4.C13.usys_matches_raceRun_no_tick",
+        "Swat4.C13Run.usys_two_clients_success",
+        "Swat4.C13Run.usys_two_clients_failure",
+        "Swat4.C13.usys_success_matches_raceRun_no_tick",
+        # delay table: scope
+        "Swat4.C13.expFloor_in_scope",
+        "Swat4.C13.expFloor_out_of_scope",
+        "Swat4.C13.retry_delay_in_scope",
+        "Swat4.C13.usecases_enqueue_within_budget",
+        "Swat4.C13.queued_within_budget",
     ],
     "shards": (1, 16),
     "nontrivial": _nontrivial,
@@ -61,9 +97,18 @@ CFG = {
         "the source text of `retryDelay := ...` in probeserver.retry, and int64(time.Duration(math.Exp(float64(n)))) / the full delay in ns computed by Go "
         "for n = 0..20; theorem expFloor_matches_go) and, for n <= 5, to the real number e^n by expFloor_brackets_exp (Mathlib bounds on e); "
         "math.Exp is evaluated on the machine that runs the check (amd64/arm64 assembly or pure Go give the same truncated values for these arguments)",
-        "versions are monotone while a record is not removed (hypothesis `hmono` of update_applies_to_latest and of the *_race theorems); remove + re-add restarts "
-        "the counter (ABA), outside the property's quantifier: there the model - and servers.go:143 `existing.Version > svr.Version`, which behaves the same - "
-        "stores the transformation of the STALE copy over the fresh registration (aba_overwrites_fresh_registration, aba_witness)",
+        "versions are monotone while a record is not removed: formerly the hypothesis `hmono` of update_applies_to_latest and of the *_race theorems, now a theorem "
+        "(exec_version_mono: every repository call of the model whose conflict callback leaves address and version alone - usecases_callbacks_stable: all of them - "
+        "leaves a stored row unchanged or with a strictly larger version; probe_*_race_any / _at / usys_probe_retry_any have no version hypothesis); what remains an "
+        "assumption is its scope: remove + re-add restarts the counter (ABA), outside the property's quantifier: there the model - and servers.go:143 "
+        "`existing.Version > svr.Version`, which behaves the same - stores the transformation of the STALE copy over the fresh registration "
+        "(aba_overwrites_fresh_registration, aba_witness); the multi-call theorems therefore quantify over activities without Remove (VerMono.ProgStable, Others)",
+        "retry budgets above 20 are outside the model (expFloor returns 0 there; the driver reports such a case as unmodelled): expFloor_in_scope / expFloor_out_of_scope; "
+        "the configured retry maxima are >= 0 (hypothesis of usecases_enqueue_within_budget)",
+        "the Prog-level race histories (raceRun / raceRunL) and the system model the driver replays (USys) agree: usys_retry_bridge (always, with Get and the clock read "
+        "at the same clock value) and usys_two_clients_retry_iff (with the history of probe_retry_race exactly when no tick separates the calls) for the retry "
+        "branch; usys_two_clients_success (= raceRun ... 2 ..., any ticks; = the history of probe_success_race when no tick separates the calls) and "
+        "usys_two_clients_failure (= the history of probe_failure_race, any ticks) for the other two; in these bridges the concurrent client performs ONE call",
         "run-level theorems assume the store invariant that a record is stored under its own address key (`haddr`)",
     ],
     "trusted_base": COMMON_TRUSTED,
@@ -79,7 +124,14 @@ CFG = {
                 "(= floor of the real e^n, n <= 5); the conflict callbacks of the other use cases on the same history (renew_conflict_refreshes_latest, "
                 "report_conflict_applies_to_latest, discover_conflict_refuses_when_marked / _marks_latest); aba_overwrites_fresh_registration: across "
                 "remove + re-add the stale copy overwrites the fresh registration (model and servers.go alike). Tied to probeserver.go and the probers by the "
-                "exhaustive table run on the real probers and by call-granularity interleavings of the real use case with one concurrent commit.",
+                "exhaustive table run on the real probers and by call-granularity interleavings of the real use case with one concurrent commit. "
+                "Round 6: the version premise `hmono` is now a theorem (exec_version_mono, for every repository call whose conflict callback leaves address and "
+                "version alone; usecases_callbacks_stable: every use case), the race theorems are restated without it for an arbitrary concurrent call "
+                "(probe_*_race_any, including Remove), for an arbitrary activity of the others at every placement between the probe's calls "
+                "(probe_retry_race_at k=1..3, probe_success_race_at k=1..2, probe_failure_race_others; Others = calls, whole use cases, USys interleavings without Remove), "
+                "and bridged to the system model the driver replays (usys_retry_bridge, usys_two_clients_*: equal to raceRun ... 2 ... always, to the raceRun ... 1 ... "
+                "history of probe_retry_race iff no tick separates the calls); expFloor = floor(e^n) on the whole table n <= 20 and = 0 (unmodelled) beyond; "
+                "every queued probe has 0 <= retries <= max (queued_within_budget, USys invariant).",
         "level_note": "Trusted: Lean kernel (propext, Quot.sound, Classical.choice); atomicity of repository calls (C09/C11 theorems about the Redis-level model); "
                       "the scripted prober; the expFloor table vs math.Exp by a regenerated fact (Go evaluates its own expression at check time) and the differential run; Prog model of probeserver validated by the correspondence run.",
         "technique": "Lean 4 proof (exhaustive kernel-decided table + refinement lemma on the versioned map) + differential correspondence under a controlled scheduler",
